@@ -422,7 +422,15 @@ def explore_doc(acc, src, depth, menu):
     if exc is not None or str(soup) != src:
         acc.extra['skipped_not_roundtripping'] += 1
         return
-    r = hist.bfs(sysm, src, depth, max_violations=6)
+    try:
+        r = hist.bfs(sysm, src, depth, max_violations=6)
+    except hist.Divergence as d:
+        # a prefix that was validated a moment ago behaves differently on a fresh parse: state survives between
+        # parses (reported as history-dependent; the runner confirms it by re-running the shard in fresh processes)
+        i = d.hist.index(d.op) if d.op in d.hist else len(d.hist) - 1
+        case = {'init': src, 'history': [jsonop(o) for o in d.hist[:i]], 'op': jsonop(d.op), 'menu': menu, 'diverged': True}
+        acc.violation('state-survives-fresh-parse', case, d.bad[0], d.bad[1], size=len(src))
+        return
     acc.evals += r.transitions
     acc.extra['states'] += r.states
     acc.extra['transitions'] += r.transitions
